@@ -180,6 +180,7 @@ func Reencode(r *rand.Rand, c *cat.Catalog) *cat.Catalog {
 		f.Enc.Nest = (f.Enc.Nest + 1 + r.Intn(2)) % 3
 		f.Enc.Variadic = !f.Enc.Variadic
 		f.Enc.ErrFirst = !f.Enc.ErrFirst
+		f.Enc.RNest = !f.Enc.RNest
 		// results
 		if f.Kind != "inv" {
 			as := false
